@@ -54,6 +54,12 @@ class C10(Spec):
                 c = list(SETUP)
                 for l in ls[i:i + per]: c += [f"C {sess} {l}"] + PROBE
                 cases.append(c)
+        # stateful numeric boundaries: a stored boundary value / version followed by a boundary delta
+        nums = [t for t in TOKENS if re.fullmatch(r"[+-]?[0-9]+", t)]
+        for b in nums:
+            for d in nums:
+                cases.append(SETUP + [f"C 1 set n {b}", f"C 1 increment n {d}"] + PROBE + [f"C 1 increment m {b}", f"C 1 increment m {d}"] + PROBE)
+                cases.append(SETUP + [f"C 1 set-safe v {b} x", f"C 1 set-safe v {d} y", "C 1 increment v", "C 1 remove v", "C 1 set v z"] + PROBE)
         return cases
 
     def nontrivial(self, case, impl):
